@@ -360,9 +360,9 @@ FUNCTIONS = list(_s.FUNCTIONS) + [
         decreases LEN(cursor) - POS(cursor)"""]},
     {'q': 'Pistache::Http::Private::HeadersStep::apply', 'hoist_all': True,
      # advance() refusals directly after a successful look-ahead (current() == ':' / ' ', eol()) are dead code
-     'dead_ok': ['return State::Again;'], 'loop_ghost': {0: 'g_line_start = POS(cursor); g_line_eff = 0; g_lines++;'}, 'contract': """
+     'dead_ok': ['return State::Again;'], 'loop_ghost': {0: 'g_line_start = POS(cursor); g_line_eff = 0; g_lines++;'}, 'prologue': 'g_lines = 0; g_raw_added = 0;', 'contract': """
         requires CUR_PRE(cursor) && FRESH(this, sizeof(*this)) && FRESH(MSG(this), sizeof(*MSG(this)))
-        requires vs_exc == 0 && !g_hit_end && PTR_EQ(g_buf_base, cursor->buf->base) && g_buf_len == LEN(cursor) && g_lines == 0 && g_raw_added == 0
+        requires vs_exc == 0 && !g_hit_end && PTR_EQ(g_buf_base, cursor->buf->base) && g_buf_len == LEN(cursor)
         assigns POS(cursor), g_effects, vs_exc, g_hit_end, MSG(this)->cookies_.o, MSG(this)->headers_.o, g_lines, g_raw_added, g_line_eff, g_line_eff_p, g_line_eff_n, g_line_start
         # C16: a raw copy is kept of EVERY header line of the block (registered or not, cookie or not)
         ensures (vs_exc == 0 && RET == STATE_NEXT) ==> g_raw_added == g_lines
@@ -402,7 +402,7 @@ FUNCTIONS = list(_s.FUNCTIONS) + [
         requires CHUNK_INV(&g_body->chunk) && BODYSTEP_INV(g_body) && g_rp->request.vs_base_Message.body_.size <= MAXLEN
         requires g_app_total == 0 && g_app_calls == 0 && g_onrequest_calls == 0 && g_send_calls == 0 && g_parsed == 0
         assigns SB(&PB(g_rp)->buffer).base, SB(&PB(g_rp)->buffer).pos, SB(&PB(g_rp)->buffer).len, PB(g_rp)->buffer.bytes, PB(g_rp)->currentStep,
-                vs_exc, vs_exc_code, g_hit_end, g_effects, g_w, g_app_total, g_app_calls, g_app_src, g_buf_base, g_buf_len, g_now,
+                vs_exc, vs_exc_code, g_hit_end, g_effects, g_lines, g_raw_added, g_line_eff, g_line_eff_p, g_line_eff_n, g_line_start, g_w, g_app_total, g_app_calls, g_app_src, g_buf_base, g_buf_len, g_now,
                 g_rp->request, g_rp->time_, g_body->bytesRead, g_body->chunk.size, g_body->chunk.alreadyAppendedChunkBytes, g_body->chunk.bytesRead,
                 g_onrequest_calls, g_send_calls, g_sent_code, g_parsed
         # C03: every exception raised while parsing (or by the handler) is turned into an error response
@@ -446,7 +446,7 @@ FUNCTIONS = list(_s.FUNCTIONS) + [
         requires PTR_EQ(g_buf_base, this->buffer.bytes.data) && g_buf_len == this->buffer.bytes.size && this->buffer.bytes.size <= vs_budget
         requires CHUNK_INV(&g_body->chunk) && BODYSTEP_INV(g_body) && g_rp->request.vs_base_Message.body_.size <= MAXLEN
         requires g_app_total == 0 && g_app_calls == 0
-        assigns SB(&this->buffer).pos, this->currentStep, vs_exc, vs_exc_code, g_hit_end, g_effects, g_w, g_app_total, g_app_calls, g_app_src,
+        assigns SB(&this->buffer).pos, this->currentStep, vs_exc, vs_exc_code, g_hit_end, g_effects, g_lines, g_raw_added, g_line_eff, g_line_eff_p, g_line_eff_n, g_line_start, g_w, g_app_total, g_app_calls, g_app_src,
                 g_rp->request, g_body->bytesRead, g_body->chunk.size, g_body->chunk.alreadyAppendedChunkBytes, g_body->chunk.bytesRead
         # L5 (step sequencing): the step index only moves forward, one step per completed step, and never past the body step
         ensures this->currentStep >= OLD(this->currentStep) && this->currentStep <= 2
@@ -457,7 +457,7 @@ FUNCTIONS = list(_s.FUNCTIONS) + [
         # a head step that needs more data leaves the cursor at the end of the last completed step; the body step keeps its invariant
         ensures (vs_exc == 0 && RET == STATE_AGAIN) ==> (CHUNK_INV(&g_body->chunk) && BODYSTEP_INV(g_body))""",
      'loops': ["""
-        assigns SB(&this->buffer).pos, this->currentStep, state, vs_exc, vs_exc_code, g_hit_end, g_effects, g_w, g_app_total, g_app_calls, g_app_src,
+        assigns SB(&this->buffer).pos, this->currentStep, state, vs_exc, vs_exc_code, g_hit_end, g_effects, g_lines, g_raw_added, g_line_eff, g_line_eff_p, g_line_eff_n, g_line_start, g_w, g_app_total, g_app_calls, g_app_src,
                 g_rp->request, g_body->bytesRead, g_body->chunk.size, g_body->chunk.alreadyAppendedChunkBytes, g_body->chunk.bytesRead, $HOISTED
         invariant this->currentStep <= 2 && LOOP_ENTRY(this->currentStep) <= this->currentStep && vs_exc == 0 && !g_hit_end
         invariant LOOP_ENTRY(SB(&this->buffer).pos) <= SB(&this->buffer).pos && SB(&this->buffer).pos <= SB(&this->buffer).len
